@@ -204,6 +204,7 @@ def task_steps(tier, seed, arg):
                                       "so the step obligations are closed under composition"))
     notes.append("alphabet: %d events; canonical hashes %s" % (
         len(L.EVENTS), dict((g, h[:8]) for g, h in canon["hash"].items())))
+    notes.extend(L.stability_note())
     notes.append("wall %.1fs" % (time.time() - t0))
     return _result(
         "steps", len(triples), distinct,
@@ -309,6 +310,7 @@ def task_histories(tier, seed, arg):
     notes.append("failing histories: %d of %d; failures split per differing group and clustered by "
                  "diff signature into %d causes; each representative shrunk by single-event deletion"
                  % (failing, len(hs), len(clusters)))
+    notes.extend(L.stability_note())
     notes.append("wall %.1fs" % (time.time() - t0))
     return _result(
         "histories", len(hs), len(distinct),
